@@ -113,6 +113,8 @@ def run_property(pid, tier, replay, meta, mode, witnesses, cfgs_quick=None, cfgs
     args = ["hist", "--out", obs, "--script", script_path, "--seed", lib.seed(), "--mode", mode]
     if not replay:
         args += ["--random", 10 if tier == "quick" else 160, "--minlen", 12, "--maxlen", 45 if tier == "quick" else 70]
+        if mode == "lifecycle":
+            args += ["--patterns", 8 if tier == "quick" else 90]   # scripted lag / trim patterns with seeded variation
     lib.kverif("repl", args, timeout=3000)
     tv = lib.trace_validate("KReplTrace", obs, pid, timeout=3000, xmx="8g")
     lines = lib.read_lines(obs)
